@@ -15,10 +15,12 @@ _CODES = st.sampled_from([0, 0, 0, 14, 14, 49, 32, 80, 4096])
 
 def steps(max_steps: int) -> t.Any:
     W = history._weighted
-    c_call = st.fixed_dictionaries({"op": st.just("c.call"), "what": st.sampled_from(["search", "search", "extended", "extended", "bind"]), "v": _V})
+    lazy = st.sampled_from([None, None, None, None, 0, 3, 11, 40])  # None = the application drains everything right away
+    c_call = st.fixed_dictionaries({"op": st.just("c.call"), "what": st.sampled_from(["search", "search", "extended", "extended", "bind"]), "v": _V, "drain": lazy})
     c_blind = st.fixed_dictionaries({"op": st.just("c.blind"), "what": st.sampled_from(["search", "extended", "bind"]), "v": _V})
-    c_unbind = st.just({"op": "c.call", "what": "unbind", "v": 0})
-    s_resp = st.fixed_dictionaries({"op": st.just("s.respond"), "which": st.integers(0, 5), "final": st.booleans(), "code": _CODES, "v": _V})
+    c_unbind = st.fixed_dictionaries({"op": st.just("c.call"), "what": st.just("unbind"), "v": st.just(0), "drain": lazy})
+    s_resp = st.fixed_dictionaries({"op": st.just("s.respond"), "which": st.integers(0, 5), "final": st.booleans(), "code": _CODES, "v": _V, "drain": lazy})
+    drain = st.fixed_dictionaries({"op": st.just("drain"), "who": st.sampled_from(["c", "s"]), "amount": st.sampled_from([None, None, 1, 7, 25])})
     s_notice = st.fixed_dictionaries({"op": st.just("s.notice"), "which": st.integers(0, 5), "code": _CODES, "v": _V})
     s_blind = st.fixed_dictionaries({"op": st.just("s.blind"), "kind": st.sampled_from(["bind", "entry", "ref", "done", "extended"]),
                                      "id": history.id_refs(["completed", "never", "zero", "open"]), "code": _CODES, "v": _V})
@@ -27,7 +29,7 @@ def steps(max_steps: int) -> t.Any:
                 (3, st.tuples(st.just("n"), st.integers(0, 40)))])
     deliver = st.fixed_dictionaries({"op": st.just("deliver"), "dir": st.sampled_from(["c2s", "s2c"]), "amount": amount})
     flush = st.just({"op": "flush"})
-    body = history._sized_list(W([(8, c_call), (2, c_blind), (9, s_resp), (2, s_blind), (12, deliver), (2, flush), (1, st.one_of(c_unbind, s_notice, s_unbind))]), max_steps)
+    body = history._sized_list(W([(8, c_call), (2, c_blind), (9, s_resp), (2, s_blind), (12, deliver), (3, drain), (2, flush), (1, st.one_of(c_unbind, s_notice, s_unbind))]), max_steps)
     return body
 
 
@@ -56,11 +58,17 @@ def run(case: t.Sequence[t.Dict[str, t.Any]], ctx: Ctx) -> t.List[Violation]:
     last_was_delivery = False
     saw_refused_after_delivery = False
 
-    def push(direction: str, who: t.Any, expected: t.Optional[t.Dict[str, t.Any]]) -> None:
-        data = who.data_to_send()
+    def push(direction: str, who: t.Any, expected: t.Optional[t.Dict[str, t.Any]], amount: t.Optional[int] = None) -> None:
+        # the application hands the session's pending bytes to the transport: all of them, or only ``amount`` now
+        # (the rest stays in the session until a later drain step / flush)
+        data = who.data_to_send(amount)
         J.pipe[direction].extend(data)
         if expected is not None:
             J.sent[direction].append(expected)
+
+    def drain_all() -> None:
+        J.pipe["c2s"].extend(J.c.data_to_send())
+        J.pipe["s2c"].extend(J.s.data_to_send())
 
     def bind_probe(i: int, sides: t.Sequence[str] = ("client",)) -> t.Optional[Violation]:
         # each side lets a bind start exactly when, by its own view, nothing is in progress.
@@ -78,7 +86,7 @@ def run(case: t.Sequence[t.Dict[str, t.Any]], ctx: Ctx) -> t.List[Violation]:
         return None
 
     def quiescent_check(i: int) -> t.Optional[Violation]:
-        if J.pipe["c2s"] or J.pipe["s2c"]:
+        if J.pipe["c2s"] or J.pipe["s2c"] or history._peek(J.c) or history._peek(J.s):
             return None
         cs, ss = sess.state(J.c), sess.state(J.s)
         if not (J.discarded["c2s"] or J.discarded["s2c"]):
@@ -157,6 +165,7 @@ def run(case: t.Sequence[t.Dict[str, t.Any]], ctx: Ctx) -> t.List[Violation]:
             if blind == verdict.accepted:
                 continue  # applications only make calls their session accepts; blind steps only when a refusal is expected
             meth, kw, exp = history.client_call_spec(what, step["v"])
+            pending_before = history._peek(J.c) if blind else b""
             try:
                 r = getattr(J.c, meth)(**kw)
             except LDAPError as e:
@@ -166,7 +175,7 @@ def run(case: t.Sequence[t.Dict[str, t.Any]], ctx: Ctx) -> t.List[Violation]:
                     ctx.event("blind-call-refused")
                     if last_was_delivery:
                         saw_refused_after_delivery = True
-                    if J.c.data_to_send():
+                    if history._peek(J.c) != pending_before:
                         v = Violation("client:refused-call-left-bytes", f"step {i} {step!r}")
             except BaseException as e:
                 v = Violation(f"client:call-escaped:{msgcheck.exc_site(e, innermost=True)}", f"step {i} {step!r}: {e!r}")
@@ -176,7 +185,7 @@ def run(case: t.Sequence[t.Dict[str, t.Any]], ctx: Ctx) -> t.List[Violation]:
                 else:
                     exp = dict(exp, id=r if what != "unbind" else 0)
                     J.cm.client_called(what, r if what != "unbind" else None)
-                    push("c2s", J.c, exp)
+                    push("c2s", J.c, exp, step.get("drain"))
                     in_flight_max = max(in_flight_max, len(J.cm.open))
             last_was_delivery = False
         elif op in ("s.respond", "s.notice", "s.blind", "s.unbind"):
@@ -208,6 +217,7 @@ def run(case: t.Sequence[t.Dict[str, t.Any]], ctx: Ctx) -> t.List[Violation]:
                 blind = op == "s.blind"
                 if blind == verdict.accepted:
                     continue
+                pending_before = history._peek(J.s) if blind else b""
                 try:
                     getattr(J.s, meth)(**kw)
                 except LDAPError as e:
@@ -217,10 +227,10 @@ def run(case: t.Sequence[t.Dict[str, t.Any]], ctx: Ctx) -> t.List[Violation]:
                         ctx.event("blind-call-refused")
                         if last_was_delivery:
                             saw_refused_after_delivery = True
-                        left = J.s.data_to_send()
-                        if left:
-                            # the refused response would reach the client: report, and let it travel (that is what happens)
-                            v = Violation("server:refused-call-left-bytes", f"step {i} {step!r} -> {kind}#{mid}: {left.hex()}")
+                        left = history._peek(J.s)
+                        if left != pending_before:
+                            # the refused response would reach the client
+                            v = Violation("server:refused-call-left-bytes", f"step {i} {step!r} -> {kind}#{mid}: pending stream {pending_before.hex()} -> {left.hex()}")
                 except BaseException as e:
                     v = Violation(f"server:call-escaped:{msgcheck.exc_site(e, innermost=True)}", f"step {i} {step!r}: {e!r}")
                 else:
@@ -228,7 +238,7 @@ def run(case: t.Sequence[t.Dict[str, t.Any]], ctx: Ctx) -> t.List[Violation]:
                         v = Violation("server:blind-call-accepted", f"step {i} {step!r} -> {kind}#{mid} (bookkeeping: {J.sm.state}, open {dict(J.sm.open)})")
                     else:
                         J.sm.server_called(kind if kind != "notice" else "extended", mid, step["code"], name)
-                        push("s2c", J.s, exp)
+                        push("s2c", J.s, exp, step.get("drain"))
             last_was_delivery = False
         elif op == "deliver":
             d = step["dir"]
@@ -239,7 +249,10 @@ def run(case: t.Sequence[t.Dict[str, t.Any]], ctx: Ctx) -> t.List[Violation]:
             if saw_refused_after_delivery:
                 refused_between_deliveries = True
             last_was_delivery = True
+        elif op == "drain":
+            push("c2s" if step["who"] == "c" else "s2c", J.c if step["who"] == "c" else J.s, None, step["amount"])
         elif op == "flush":
+            drain_all()
             for _ in range(4):
                 for d in ("c2s", "s2c"):
                     if v is None:
@@ -255,7 +268,9 @@ def run(case: t.Sequence[t.Dict[str, t.Any]], ctx: Ctx) -> t.List[Violation]:
             out.append(v)
             break
     else:
-        # final: deliver everything, then the quiescent check must hold
+        # final: hand over everything that is still pending in the sessions, deliver everything, then the quiescent
+        # check must hold
+        drain_all()
         for _ in range(6):
             for d in ("c2s", "s2c"):
                 if not out:
